@@ -470,6 +470,108 @@ def surface_cases(chk, found, gl):
     return exprs
 
 
+# ---------------------------------------------------------- atheris (thorough, optional)
+_ATHERIS_SRC = r"""
+import os, sys, signal
+sys.path.insert(0, os.environ["VERIF_ROOT"])
+import atheris
+with atheris.instrument_imports(include=["microjs"]):
+    import microjs
+from checks.c04 import repair_depth
+
+class Alarm(BaseException):
+    pass
+def _h(s, f):
+    raise Alarm()
+signal.signal(signal.SIGVTALRM, _h)
+
+def one(data):
+    try:
+        src = data.decode("utf-8")
+    except UnicodeDecodeError:
+        src = data.decode("utf-8", "ignore")
+    src = repair_depth(src)
+    ctx = microjs.Context(time_limit=0.5, memory_limit=2000000)
+    ctx.set("console", {"log": lambda *a: None})
+    signal.setitimer(signal.ITIMER_VIRTUAL, 10.0, 1.0)
+    try:
+        try:
+            ctx.eval(src)
+        except microjs.JSError:
+            return
+        except MemoryError:
+            return
+    finally:
+        signal.setitimer(signal.ITIMER_VIRTUAL, 0)
+
+atheris.Setup(sys.argv, one)
+atheris.Fuzz()
+"""
+
+
+def run_atheris(chk, corpus):
+    """Coverage-guided campaign on eval(source) with the same class oracle (python3-vt + atheris)."""
+    import shutil
+    import subprocess
+    import tempfile
+
+    exe = shutil.which("python3-vt")
+    env = dict(os.environ, PYTHONPATH=engine.SRC, PYTHONDONTWRITEBYTECODE="1", PYTHONHASHSEED="0", VERIF_ROOT=core.ROOT)
+    ok = False
+    if exe:
+        try:
+            ok = subprocess.run([exe, "-c", "import atheris"], env=env, capture_output=True, timeout=60).returncode == 0
+        except Exception:
+            ok = False
+    if not ok:
+        chk.extra["atheris"] = "skipped: python3-vt/atheris not available"
+        return
+    total = 0
+    for label, seeded in (("seeded-corpus", True), ("empty-corpus", False)):
+        d = tempfile.mkdtemp(prefix="c04-atheris-")
+        try:
+            script = os.path.join(d, "fuzz.py")
+            with open(script, "w", encoding="utf-8") as f:
+                f.write(_ATHERIS_SRC)
+            cdir = os.path.join(d, "corpus")
+            os.makedirs(cdir)
+            if seeded:
+                for i, src in enumerate(c for c in corpus if len(c) < 600):
+                    with open(os.path.join(cdir, "c%04d" % i), "w", encoding="utf-8") as f:
+                        f.write(src)
+            cmd = [exe, script, cdir, "-runs=%d" % int(os.environ.get("VERIF_C04_ATHERIS_RUNS", "150000")), "-seed=%d" % (chk.seed & 0x7FFFFFFF or 1), "-max_len=400", "-timeout=60",
+                   "-artifact_prefix=" + d + os.sep, "-print_final_stats=1", "-verbosity=0"]
+            try:
+                pr = subprocess.run(cmd, env=env, cwd=d, capture_output=True, timeout=1500)
+            except subprocess.TimeoutExpired:
+                chk.extra["atheris_" + label] = "truncated: campaign exceeded its wall budget"
+                chk.truncated = True
+                continue
+            err = pr.stderr.decode("utf-8", "replace")
+            done = [l for l in err.splitlines() if "stat::number_of_executed_units" in l]
+            execs = int(done[0].split()[-1]) if done else 0
+            total += execs
+            chk.count(execs)
+            chk.classify("atheris executions (%s)" % label, execs)
+            chk.extra["atheris_" + label] = {"executions": execs, "returncode": pr.returncode}
+            if pr.returncode != 0:
+                arts = [fn for fn in os.listdir(d) if fn.startswith(("crash-", "timeout-", "oom-"))]
+                data = b""
+                if arts:
+                    with open(os.path.join(d, arts[0]), "rb") as f:
+                        data = f.read()
+                src = repair_depth(data.decode("utf-8", "ignore"))
+                # re-judge the saved input with the ordinary oracle (the saved input is the reproducible unit)
+                (verdict, info, shift), = front_task([src])
+                if verdict in ("foreign", "hang", "badpos", "syntax-unpositioned") or shift is not None:
+                    chk.violation("front|atheris|%s|%s" % (verdict, sig_of(info) if info else ""), {"sub": "front", "kind": "atheris-" + label, "src": src},
+                                  "value or JSError", [verdict, info and info.get("cls"), info and (info.get("message") or "")[:100]], sub="front")
+                else:
+                    chk.extra["atheris_" + label]["note"] = "libFuzzer stopped on an input that the ordinary oracle accepts (%s)" % verdict
+        finally:
+            shutil.rmtree(d, ignore_errors=True)
+
+
 # ------------------------------------------------------------------- the check
 def sig_of(info):
     return "%s@%s" % (info["cls"], info.get("frame") or "?")
@@ -540,6 +642,10 @@ def main(chk):
                 chk.sample({"kind": kind, "src": src[:120], "outcome": "JSSyntaxError", "line": info["line"], "column": info["column"]})
             elif verdict == "runtime":
                 chk.sample({"kind": kind, "src": src[:120], "outcome": info["cls"] + ": " + (info.get("message") or "")[:40]}, cls="rt", per_class=4)
+    if not quick:
+        run_atheris(chk, corpus)
+    else:
+        chk.extra["atheris"] = "thorough tier only"
     # (b)
     found, gl = discover_surface()
     chk.extra["surface_members"] = len(found)
